@@ -1,4 +1,5 @@
 import Ogorek.Lemmas.NoPanic
+import Ogorek.Props.C04
 
 /-!
   C17 — Unhashable dict keys produce an error, never a panic or a dropped entry.
